@@ -584,7 +584,10 @@ func c13KMAC(run *mon.Run) {
 			for s := 0; s < 3+r.IntN(10); s++ {
 				switch op := r.IntN(10); {
 				case op < 2:
-					msg := mon.RandBytes(r, r.IntN(400))
+					msg := mon.RandBytes(r, []int{0, 0, 1, 167, 168, 169, r.IntN(400), r.IntN(400)}[r.IntN(8)])
+					if len(msg) == 0 && r.IntN(2) == 0 {
+						msg = nil // the empty input as nil and as a zero-length slice
+					}
 					trace = append(trace, fmt.Sprintf("ComputeHash(%d)", len(msg)))
 					run.Eval(1)
 					if got, want := h.ComputeHash(msg), ref.KMAC128(key, msg, size, cust); !bytes.Equal(got, want) {
